@@ -8,20 +8,26 @@ warnings.filterwarnings("ignore")
 ROOT = os.path.dirname(os.path.dirname(os.path.abspath(__file__)))
 
 
-def to_py_item(j):
-    """JSON item -> Python index entry."""
+def to_py_item(j, npint=False):
+    """JSON item -> Python index entry (with `npint`: numpy integers instead of Python ints)."""
     if j is None:
         return None
     if j == "...":
         return Ellipsis
+    cv = (lambda x: None if x is None else np.int64(x)) if npint else (lambda x: x)
     if isinstance(j, dict):
         a, b, c = j["s"]
-        return slice(a, b, c)
-    return int(j)
+        return slice(cv(a), cv(b), cv(c))
+    return np.int64(j) if npint else int(j)
 
 
-def to_py_index(items, bare=False):
-    t = tuple(to_py_item(i) for i in items)
+def npint_of(case):
+    """Whether a case passes its integers as numpy integers (derived from the case, about one in six)."""
+    return case.get("wseed", 1) % 6 == 0
+
+
+def to_py_index(items, bare=False, npint=False):
+    t = tuple(to_py_item(i, npint) for i in items)
     if bare and len(t) == 1:
         return t[0]
     return t
